@@ -362,7 +362,7 @@ Proof. intros H. rewrite (nth_indep _ VUnset (v_strs [])) by (rewrite map_length
 Ltac ev :=
   cbn [eval evals ebind slice_from_val slice_range_val be_val has_val nth_error binop_val binop_int binop_str binop_bool is_nilish
        items_of set_opt upd get nth assign_all assign1 loop_ctl Nat.eqb call_result ret_of
-       wp_items f_nparams f_nvars f_outs f_body byte_val map negb Bool.eqb orb].
+       wp_items f_nparams f_nvars f_outs f_body byte_val map negb Bool.eqb orb andb].
 
 (** [start_func go_f]: from [exists fuel, run_func fuel p go_f args = r] to a [wp] goal over the
     translated body with the initial environment computed *)
@@ -400,7 +400,8 @@ Proof. apply map_length. Qed.
 Lemma length_map_byte_val (l : bytes) : length (map byte_val l) = length l.
 Proof. apply map_length. Qed.
 
-Ltac lens := rewrite ?length_map_VStr, ?length_map_v_strs, ?length_map_v_nat, ?length_map_byte_val in *.
+Ltac lens := rewrite ?length_map_VStr, ?length_map_v_strs, ?length_map_v_nat, ?length_map_byte_val,
+                     ?app_length, ?skipn_length.
 Ltac side := lens; lia.
 
 Lemma is_neg_false z : 0 <= z -> is_neg z = false.
@@ -427,6 +428,28 @@ Ltac norm1 :=
     | rewrite nth_map_v_strs by side ].
 Ltac evn := ev; repeat (norm1; ev); unfold v_strs, v_nat; ev; repeat (norm1; ev).
 
+Ltac is_pconst p :=
+  lazymatch p with
+  | xH => idtac
+  | xO ?q => is_pconst q
+  | xI ?q => is_pconst q
+  end.
+Ltac is_Zconst z :=
+  lazymatch z with
+  | Z0 => idtac
+  | Zpos ?p => is_pconst p
+  | Zneg ?p => is_pconst p
+  end.
+Ltac closed_cond c :=
+  lazymatch c with
+  | true => idtac
+  | false => idtac
+  | negb ?d => closed_cond d
+  | Z.eqb ?a ?b => is_Zconst a; is_Zconst b
+  | Z.ltb ?a ?b => is_Zconst a; is_Zconst b
+  | Z.leb ?a ?b => is_Zconst a; is_Zconst b
+  end.
+
 (** [stepn]: like [step] with normalisation before closing the evaluation *)
 Ltac stepn :=
   lazymatch goal with
@@ -437,7 +460,7 @@ Ltac stepn :=
   | |- wp _ (SBreak _) _ _ => apply wp_break; ev
   | |- wp _ (SContinue _) _ _ => apply wp_continue; ev
   | |- wp _ SPanic _ _ => apply wp_panic; ev
-  | |- wp _ (SAssign _ _) _ _ => eapply wp_assign; [evn; reflexivity|ev]
+  | |- wp _ (SAssign _ _) _ _ => eapply wp_assign; [evn; reflexivity|ev; repeat (norm1; ev)]
   | |- wp _ (SReturn _) _ _ => eapply wp_return; [evn; reflexivity|ev]
   | |- wp _ (SIf _ _ _) _ _ => eapply wp_if; [evn; reflexivity|ev]
   | |- wp _ (SRange _ _ _ _ _) _ _ => eapply wp_range; [evn; reflexivity|ev; reflexivity|]
@@ -445,7 +468,9 @@ Ltac stepn :=
       first [ eapply wp_copy_list; [evn; reflexivity|ev; reflexivity|ev]
             | eapply wp_copy_str; [evn; reflexivity|ev; reflexivity|ev] ]
   | |- wp _ (if ?c then _ else _) _ _ =>
-      (* a closed condition: compute it (fails, i.e. stops, on a symbolic one) *)
+      (* a comparison of integer literals: compute it (fails, i.e. stops, on anything symbolic;
+         never normalise an open term here, [wrap] over a variable explodes) *)
+      closed_cond c;
       let v := eval vm_compute in c in
       lazymatch v with
       | true => change c with true; cbv iota
@@ -578,6 +603,7 @@ Qed.
 (** steps over straight-line code only: stops in front of [SSeq a _] when [a] is compound *)
 Ltac is_simple s :=
   lazymatch s with
+  | SAssign [LIndex _ _] _ => fail
   | SAssign _ _ => idtac
   | SSkip => idtac
   | SReturn _ => idtac
